@@ -149,3 +149,9 @@ package internal
 //@   assert call Handlers#2: !armed(slot, PollerWriteEvent)
 //@   ensures [timeout] n == 0 && timeoutMs >= 0 && err == nil ==> false
 //@   ensures [count] err == nil ==> n >= 0
+
+// internal.Poller has a single implementation on this platform.
+//@ devirtualize Poller poller
+
+// A slot's descriptor is fixed when its owner is constructed.
+//@ immutable [C01,C03,C13] Slot.Fd constructors newFile, NewEventFd, NewPipe, NewAsyncAdapter, NewUDPPeer, NewTimer, Listen, NewPacketConn
